@@ -10,6 +10,10 @@ def check_c15(ctx):
     mc = core.model_check(ctx, "DataModel", "MCDataModel.cfg", timeout=1200)
     gen = core.generate(ctx, "FrontendGen", "GenTypes.cfg", num=300 if quick else 4000, depth=400, seed=ctx.seed * 100 + 15, timeout=2400)
     scn = [{"id": i + 1, "decls": g["decls"], "seed": ctx.seed, "mermaid": i % 3 == 0} for i, g in enumerate(gen)]
+    # every fourth program gets a second copy of application B under the name BB: an application whose name begins
+    # with the name of another one (the diagram of B covers B's types only)
+    for s in scn[::4]:
+        s["decls"] = with_namesake_prefix(s["decls"], "B", "BB")
     events, _ = core.vh_sharded(ctx, "datamodel", scn, timeout=3000)
     prints, nev, _ = core.validate(ctx, "DataModelTrace", "DataModelTrace.cfg", events, chunk=40000)
     begins = {e["t"]: e for e in events if e["e"] == "begin"}
@@ -62,6 +66,26 @@ def check_c15(ctx):
         "forbidden; a reference to a type of another application is neither required nor forbidden in a per-application diagram",
         "field types are compared as text (primitive name or reference as written, inside Set / Sequence / List); multiplicity labels are not compared",
     ])
+
+
+def with_namesake_prefix(decls, app, twin):
+    """Appends a copy of every block of application `app`, renamed `twin`."""
+    import copy
+    opens = ("app", "type", "inplace", "ep", "event", "sub", "rest", "method", "block", "oneof", "choice")
+    out, extra, depth, taking = list(decls), [], 0, False
+    for d in decls:
+        if depth == 0 and d["k"] == "app":
+            taking = d.get("name") == app
+        if taking:
+            c = copy.deepcopy(d)
+            if depth == 0 and c["k"] == "app":
+                c["name"] = twin
+            extra.append(c)
+        if d["k"] == "end":
+            depth -= 1
+        elif d["k"] in opens:
+            depth += 1
+    return out + extra
 
 
 def _type_diffs(b, d):
